@@ -23,6 +23,8 @@ func runC30(w *World, r *Report) {
 	r.Rule("R-C30-2", "constant column names given to Equals/NotEquals/LessThan/GreaterThan/Sort/SetPrimaryKey/Nullable/SetSQLType/SetSQLName exist (case-insensitively) in the struct the handle was opened with", 25)
 	r.Rule("R-C30-3", "values are bound, not spliced: in internal/resources nothing derived from Filter.Value or from a record's exploded field values flows into the statement text given to Exec/Query", 5)
 
+	c30PlaceholderBinding(w, r)
+
 	rp := w.pkg("internal/resources")
 	if rp == nil {
 		r.Anchor("R-C30-1", "package internal/resources")
